@@ -35,7 +35,18 @@ def chain_to_path(ctx, base, chain):
         p += '.' + name
         k, fl = _kind_of_field(ctx, cls, name)
         if k in ('array', 'carray'):
-            p += '[]'
+            # one element addressed by a constant index covers that element only: `x[0].Reset(); x[0].Reset();` does not
+            # reset x[1].  Recorded as [#i/N]; the coverage test needs all N (or an access to every element, [])
+            n_el = None
+            ts = str((fl or {}).get('t', {}).get('s', ''))
+            import re as _re
+            m_ = _re.search(r', (\d+)>$', ts) or _re.search(r'\[(\d+)\]$', ts)
+            if m_:
+                n_el = int(m_.group(1))
+            if isinstance(idx, int) and n_el and n_el > 1:
+                p += '[#%d/%d]' % (idx, n_el)
+            else:
+                p += '[]'
         elif k == 'pimpl':
             p += '->'
     return p
@@ -220,6 +231,23 @@ def n2_reset(ctx, leaves):
             ctor_only.setdefault(key, True)
             if not f.get('ctor'):
                 ctor_only[key] = False
+    # element-wise coverage: a prefix `P[#i/N]rest` counts as `P[]rest` only when all N elements occur with the same rest
+    import re as _re2
+    full_cov = set()
+    partial = {}
+    for c in cov:
+        m_ = _re2.search(r'\[#(\d+)/(\d+)\]', c)
+        if not m_:
+            full_cov.add(c)
+            continue
+        key = (c[:m_.start()], c[m_.end():], int(m_.group(2)))
+        partial.setdefault(key, set()).add(int(m_.group(1)))
+    for (pre, post, n_el), seen_idx in partial.items():
+        if len(seen_idx) == n_el:
+            full_cov.add(pre + '[]' + post)
+        else:
+            ctx.notes.append('only elements %s of %d of %s are reset' % (sorted(seen_idx), n_el, pre))
+    # (nested partial indices are rare; a second level would be left partial and count as not covered)
     n_cov = 0
     for l in leaves:
         if l.kind.startswith('wiring') or l.kind == 'sync':
@@ -235,7 +263,7 @@ def n2_reset(ctx, leaves):
             continue
         lp = l.path.replace('[]', '')
         ok = False
-        for c in cov:
+        for c in full_cov:
             c = c.replace('[]', '')
             if lp == c or lp.startswith(c + '.') or lp.startswith(c + '->') or (c.endswith('->') and lp.startswith(c)):
                 ok = True
